@@ -11,6 +11,7 @@ structure GoodFacts (F : Facts15) : Prop where
   varX : F.varRuleX = .ownPerClass
   col : F.colCopy = .deep
   prot : F.protCopy = .copied
+  subs : F.subsRule = .classStatementsOnly
 
 theorem impl_append (F : Facts15) [DeepCopy F] (fuel : Nat) (name : String) (t : Nat) : Impl (appendImpl F fuel name t) :=
   ⟨fun _ _ _ v hv => good_appendImpl F fuel name t v hv, fun v => keeps_appendImpl F fuel name t v⟩
@@ -45,11 +46,37 @@ theorem evolveOp_ext (impl : Nat → M Unit) (hi : Impl impl) (h : Heap) (ih : I
         | ok h' u => rw [he] at r; exact r
         | err h' e => rw [he] at r; exact r
 
+theorem map_heap {α β : Type} (f : α → β) (m : M α) (h : Heap) : ((f <$> m) h).heap = (m h).heap := by
+  have : (f <$> m) = (m >>= fun a => Pure.pure (f a)) := rfl
+  rw [this]
+  simp only [Bind.bind, M.bind]
+  cases m h <;> rfl
+
+/-- a class statement: the only existing class it may write is the one it extends (its `_subclasses`) -/
+theorem subclass_ext (F : Facts15) (h : Heap) (base : Option Nat) (name : String) (ns : Option String)
+    (fields : List (String × Nat)) (perm : List Nat) (attrs : Option Kw) (mixins : List Nat) (asMixin : Bool) :
+    Ext h.cls.length h.attrs.length (touched F h (.subclass base name ns fields perm attrs mixins asMixin)) h
+      (subclassOp F base name ns fields perm attrs mixins asMixin h).heap := by
+  unfold subclassOp
+  simp only [Bind.bind, M.bind, SpyneModel.Derive.getCls, touched]
+  cases hb : h.cls[base.getD F.complexRoot]? with
+  | none => exact Ext.refl _ _ _ _
+  | some bc =>
+    simp only
+    cases hx : subclassExtends (base.getD F.complexRoot) bc with
+    | error e => simp only [liftExcept, SpyneModel.Derive.fail]; exact Ext.refl _ _ _ _
+    | ok ext =>
+      simp only [liftExcept, Pure.pure, M.pure]
+      refine (good_subclassRest F _ bc ext name ns fields perm attrs mixins asMixin ?_ h (Nat.le_refl _) (Nat.le_refl _)).1
+      intro e he
+      subst he
+      right; simp
+
 /-- FRAME, one step: an operation - returning or raising - leaves the record of every existing class outside
     `touched` and the public part of every existing `Attributes` as they were -/
 theorem frame_ext (F : Facts15) (gf : GoodFacts F) (fuel : Nat) (h : Heap) (ih : Inv h) (op : Op) :
     Ext h.cls.length h.attrs.length (touched F h op) h (apply F fuel h op).heap := by
-  haveI : DeepCopy F := ⟨gf.col, gf.prot⟩
+  haveI : DeepCopy F := ⟨gf.col, gf.prot, gf.subs⟩
   cases hop : op.derives with
   | true =>
     have e := derive_ext F gf.mand fuel h op hop
@@ -63,7 +90,10 @@ theorem frame_ext (F : Facts15) (gf : GoodFacts F) (fuel : Nat) (h : Heap) (ih :
     | customize => simp [Op.derives] at hop
     | array => simp [Op.derives] at hop
     | mandatory => simp [Op.derives] at hop
-    | subclass => simp [Op.derives] at hop
+    | subclass base name ns fields perm attrs mixins asMixin =>
+      have := subclass_ext F h base name ns fields perm attrs mixins asMixin
+      simp only [apply, opProg, map_heap]
+      exact this
     | xmlattr => simp [Op.derives] at hop
 
 theorem inv_range (h : Heap) (ih : Inv h) (c : Nat) (cl : Cls) (hc : h.cls[c]? = some cl) :
